@@ -4,6 +4,7 @@ import (
 	"fmt"
 	"go/token"
 	"go/types"
+	"hash/crc32"
 	"math/bits"
 	"strings"
 
@@ -458,6 +459,99 @@ func builtinIntrinsics() map[string]intrinsic {
 	}
 	m["sort.Sort"] = sortIface
 	m["sort.Stable"] = sortIface
+	// ---- hash/crc32: native on concrete data, uninterpreted function of (table, initial crc, bytes) on symbolic data ----
+	crcUpdate := func(p *Path, tabID string, poly uint32, crc *Term, data Value) Value {
+		es := p.elemsOf(data)
+		allc := crc.Op == OpConst
+		buf := make([]byte, len(es))
+		for i, e := range es {
+			t := e.(*Term)
+			if t.Op != OpConst {
+				allc = false
+				break
+			}
+			buf[i] = byte(t.C)
+		}
+		if allc {
+			return p.st.BV(32, uint64(crc32.Update(uint32(crc.C), crc32.MakeTable(poly), buf)))
+		}
+		if len(es) == 0 {
+			return crc
+		}
+		p.eng.noteStub(p.harness, "hash/crc32 on symbolic data: uninterpreted function of (table, initial crc, byte sequence)")
+		args := []*Term{crc}
+		for _, e := range es {
+			args = append(args, e.(*Term))
+		}
+		return p.st.UF(fmt.Sprintf("crc32_%s_%d", tabID, len(es)), 32, args...)
+	}
+	m["hash/crc32.ChecksumIEEE"] = func(p *Path, fr *frame, pos token.Pos, args []Value) Value {
+		return crcUpdate(p, "ieee", crc32.IEEE, p.st.BV(32, 0), args[0])
+	}
+	m["hash/crc32.Update"] = func(p *Path, fr *frame, pos token.Pos, args []Value) Value {
+		tab, ok := args[1].(*Value)
+		if !ok || tab == nil {
+			p.unsupported("crc32.Update with nil table")
+		}
+		// identify the table by its second entry (T[1] == reflected polynomial's 0x80-byte image is unique per polynomial)
+		arr := (*tab).(Array)
+		t1 := arr[1].(*Term)
+		if t1.Op != OpConst {
+			// table not yet populated (lazily built IEEE table)
+			return crcUpdate(p, "ieee", crc32.IEEE, args[0].(*Term), args[2])
+		}
+		for _, poly := range []uint32{crc32.IEEE, crc32.Castagnoli, crc32.Koopman} {
+			if crc32.MakeTable(poly)[1] == uint32(t1.C) {
+				return crcUpdate(p, fmt.Sprintf("%08x", poly), poly, args[0].(*Term), args[2])
+			}
+		}
+		if t1.C == 0 {
+			return crcUpdate(p, "ieee", crc32.IEEE, args[0].(*Term), args[2])
+		}
+		p.unsupported("crc32.Update with an unknown table")
+		return nil
+	}
+	m["hash/crc32.MakeTable"] = func(p *Path, fr *frame, pos token.Pos, args []Value) Value {
+		poly := args[0].(*Term)
+		if poly.Op != OpConst {
+			p.unsupported("crc32.MakeTable(symbolic)")
+		}
+		tab := crc32.MakeTable(uint32(poly.C))
+		a := make(Array, 256)
+		for i := range a {
+			a[i] = p.st.BV(32, uint64(tab[i]))
+		}
+		cell := new(Value)
+		*cell = a
+		return cell
+	}
+	// ---- quicktemplate / bytebufferpool plumbing ----
+	m["github.com/valyala/quicktemplate.unsafeStrToBytes"] = func(p *Path, fr *frame, pos token.Pos, args []Value) Value {
+		bs := p.strBytes(args[0].(*Str))
+		out := make([]Value, len(bs))
+		for i, b := range bs {
+			out[i] = b
+		}
+		return out
+	}
+	m["github.com/valyala/quicktemplate.unsafeBytesToStr"] = func(p *Path, fr *frame, pos token.Pos, args []Value) Value {
+		switch b := args[0].(type) {
+		case []Value:
+			return p.bytesToStr(fr, b, nil)
+		case *SymSlice:
+			return &Str{Arr: b.Arr, Off: b.Off, Len: b.Len, Max: b.Max}
+		}
+		p.unsupported("unsafeBytesToStr of %T", args[0])
+		return nil
+	}
+	m["(*github.com/valyala/bytebufferpool.Pool).Get"] = func(p *Path, fr *frame, pos token.Pos, args []Value) Value {
+		p.eng.noteStub(p.harness, "bytebufferpool: pool returns a fresh buffer")
+		bt := p.eng.pkgByPath["github.com/valyala/bytebufferpool"].Type("ByteBuffer").Type()
+		cell := new(Value)
+		*cell = p.zero(bt)
+		return cell
+	}
+	m["(*github.com/valyala/bytebufferpool.Pool).Put"] = nop
 	m["internal/abi.NoEscape"] = id
 	m["internal/abi.Escape"] = id
 	m["internal/race.Enabled"] = nop
